@@ -44,6 +44,6 @@ SendFailResolves == Is("sendfail") => (o.bad_outcome = "exc" /\ o.error_callback
 SendFailSlot == Is("sendfail") => (o.slots_free = o.slots \/ TolSendFailSlot)
 (* C09 *)
 RecycleHarmless == Is("recycle") =>
-    (o.outcome = "ok" /\ o.items /\ o.max_per_worker <= o.quota /\ o.max_per_worker >= 1 /\ o.secs10 < 100)
-DiscardNoHoldUp == Is("discard") => (o.outcome = "ok" /\ (o.secs10 < 100 \/ TolDiscardCredit))
+    (o.outcome = "ok" /\ o.items /\ o.max_per_worker <= o.quota /\ o.max_per_worker >= 1 /\ o.secs10 < 50 + Slack10)
+DiscardNoHoldUp == Is("discard") => (o.outcome = "ok" /\ (o.secs10 < 50 + Slack10 \/ TolDiscardCredit))
 =============================================================================
